@@ -239,13 +239,18 @@ def d1(ctx, prog, u, fl_paths, fl, closure, init_funcs):
                 if astutil.loops(sn, pm):
                     in_loop = True
         counts = set()
+        mech = set()
         for p in fl_paths:
             if p.outcome != flow.NORMAL:
                 continue
-            c = sum(1 for ev in p.events if site_of[ev[3]] in ids and ev[0] in ('store', 'call'))
-            counts.add(c)
-        if in_loop:
-            ctx.ok(rule, key, f'{u.cls.name}: contribution to {a} sits in a loop (per-iteration term); once-per-path not applicable')
+            hit = [site_of[ev[3]] for ev in p.events if site_of[ev[3]] in ids and ev[0] in ('store', 'call')]
+            counts.add(len(hit))
+            mech.add(len(set(hit)))
+        if mech - {0, 1}:
+            ctx.fail(rule, key, f'{u.cls.name}: accumulator {a} is fed by {max(mech)} different statements / kernels on one accepted path: the batch is counted more than once '
+                                f'(e.g. counted by the caller and again inside the kernel the timings selected)', u.acc[a][0].where(u.acc[a][1]))
+        elif in_loop and 0 not in mech:
+            ctx.ok(rule, key, f'{u.cls.name}: one contributing statement for {a} on every accepted path (it sits in a loop: per-iteration term)')
         elif counts == {1}:
             ctx.ok(rule, key, f'{u.cls.name}: exactly one contribution to {a} on each of the accepted paths')
         else:
